@@ -33,6 +33,40 @@ def sweep_scenarios(quick, seed):
     return out
 
 
+def wheel_fired_early(prop, tier):
+    """The exact fold of the real timer wheel (TimerWheelTrace.tla), reporting only timers fired although their deadline
+    had not passed - the Expiration half of C07.  Returns (events, traces, [(pred, detail, path)], broken)."""
+    seed = vlib.seed()
+    quick = tier == "quick"
+    events, traces, viol, broken = 0, 0, [], []
+    with vlib.scratch("verif-c13w-") as work:
+        wbin = vlib.build_test_binary(work, "expiration")
+
+        def wheel(i):
+            tr = os.path.join(work, "wheel_%d.ndjson" % i)
+            dv = os.path.join(work, "wheel_%d.dev.json" % i)
+            rc, out = vlib.run_test_binary(wbin, "TestVerifWheel", {"VERIF_OUT": tr, "VERIF_SEED": seed * 1000 + 500 + i, "VERIF_N": 20 if quick else 60,
+                                                                    "VERIF_LEN": 250 if quick else 500}, timeout=900)
+            if rc != 0:
+                raise vlib.Broken("wheel driver failed:\n" + out[-2000:])
+            r = vlib.run_tlc(work, "TimerWheelTrace", os.path.join(vlib.SPEC, "TimerWheelTrace.cfg"), workers=1, timeout=1500, heap="3g",
+                             env_extra={"VERIF_TRACE": tr, "VERIF_DEVOUT": dv})
+            if not vlib.tlc_ok(r) or not os.path.exists(dv):
+                raise vlib.Broken("TimerWheelTrace did not complete:\n" + r["out"][-2500:])
+            with open(dv) as f:
+                return json.load(f), {"kind": "wheel", "seed": seed * 1000 + 500 + i}
+        with cf.ThreadPoolExecutor(max_workers=vlib.NCPU) as ex:
+            for fu in [ex.submit(wheel, i) for i in range(4 if quick else 12)]:
+                d, meta = fu.result()
+                events += d["n"]
+                traces += 1
+                early = [x for x in d["devs"] if x["pred"] == "C13.expired_early"]
+                if early:
+                    path = vlib.save_replay(prop, "wheel-%d" % meta["seed"], meta)
+                    viol.append(("C07.expired_before_deadline", early[0]["detail"], path))
+    return events, traces, viol, broken
+
+
 def run(prop, tier, replay=None):
     t0 = time.time()
     seed = vlib.seed()
